@@ -15,6 +15,7 @@ import (
 	"testing"
 
 	"verif/internal/gen"
+	"verif/internal/kf"
 	m "verif/internal/model"
 	"verif/internal/pipeline"
 	"verif/internal/stats"
@@ -60,6 +61,8 @@ type Options struct {
 	Keep func(d *m.Design) bool
 	// Tweak may adjust the design before it is lowered.
 	Tweak func(d *m.Design)
+	// AvoidIfOpen lists further known findings this campaign steers away from while they are open.
+	AvoidIfOpen []string
 }
 
 // Prepare generates, builds and starts n designs (or loads the one of a
@@ -70,6 +73,11 @@ func Prepare(t *testing.T, tag string, o Options) (*pipeline.Session, []*Built) 
 		t.Fatalf("INCONCLUSIVE: %v", err)
 	}
 	o.Profile.Avoid = gen.OpenQuirks()
+	for _, id := range o.AvoidIfOpen {
+		if kf.Open(id) {
+			o.Profile.Avoid[id] = true
+		}
+	}
 	var designs []*m.Design
 	if rd := ReplayDir(); rd != "" {
 		b, err := os.ReadFile(filepath.Join(rd, "design.json"))
